@@ -141,24 +141,18 @@ Fixpoint all_default (fuel : nat) (h : hirspec) (l : list hfield) : result bool 
 Definition serde_skip (pred : string) : src :=
   t "#[serde(default, skip_serializing_if =" ++ sl (lit pred) ++ t ")]".
 
-Definition field_attributes (f : hfield) (name : str) : result src :=
-  do rid <- sanitize name;
-  let a1 := if str_eqb rid name then []
-            else if f_flatten f then t "#[serde(flatten)]"
-            else t "#[serde(rename =" ++ sl name ++ t ")]" in
-  let a2 := if f_optional f then serde_skip "Option::is_none"
-            else if is_iterable (f_ty f) then serde_skip "Vec::is_empty"
-            else match f_ty f with TAny => serde_skip "serde_json::Value::is_null" | _ => [] end in
-  let a3 := match f_ty f with
-            | TInteger IString => t "#[serde(with =" ++ sl (lit "crate::serde::option_i64_str") ++ t ")]"
-            | TInteger INullAsZero => t "#[serde(with =" ++ sl (lit "crate::serde::option_i64_null_as_zero") ++ t ")]"
-            | TDate DInteger => t "#[serde(with =" ++ sl (lit "crate::serde::option_chrono_naive_date_as_int") ++ t ")]"
-            | TCurrency => if f_optional f
-                           then t "#[serde(with =" ++ sl (lit "rust_decimal::serde::str_option") ++ t ")]"
-                           else t "#[serde(with =" ++ sl (lit "rust_decimal::serde::str") ++ t ")]"
-            | _ => []
-            end in
-  Ok (a1 ++ a2 ++ a3).
+(* what serde is told about one struct field: decided here, printed below, given meaning in Sem/Serde.v *)
+Inductive skip_if := SkipNone | SkipEmptyVec | SkipNullValue.
+Inductive wire_name := WIdent | WRename (n : str) | WFlatten.
+
+Record fdesc := {
+  fd_ident : str;                 (* the Rust field identifier *)
+  fd_wire : wire_name;            (* under which key the member travels *)
+  fd_default_skip : option skip_if;   (* #[serde(default, skip_serializing_if = ..)] *)
+  fd_with : option str;           (* #[serde(with = "..")] *)
+  fd_option : bool;               (* the field type is Option<T> *)
+  fd_ty : rty
+}.
 
 Definition forced_option (x : ty) : bool :=
   match x with
@@ -166,12 +160,43 @@ Definition forced_option (x : ty) : bool :=
   | _ => false
   end.
 
-Definition class_field (name : str) (f : hfield) : result src :=
-  do attrs <- field_attributes f name;
+Definition field_desc (name : str) (f : hfield) : result fdesc :=
+  do rid <- sanitize name;
   do r <- to_rust_type (f_ty f);
-  do id <- field_ident name;
-  let r' := if f_optional f || forced_option (f_ty f) then ROption r else r in
-  Ok (doc_attr (f_doc f) ++ attrs ++ t "pub" ++ id ++ t ":" ++ rty_code r').
+  Ok {| fd_ident := rid;
+        fd_wire := if str_eqb rid name then WIdent else if f_flatten f then WFlatten else WRename name;
+        fd_default_skip := if f_optional f then Some SkipNone
+                           else if is_iterable (f_ty f) then Some SkipEmptyVec
+                           else match f_ty f with TAny => Some SkipNullValue | _ => None end;
+        fd_with := match f_ty f with
+                   | TInteger IString => Some (lit "crate::serde::option_i64_str")
+                   | TInteger INullAsZero => Some (lit "crate::serde::option_i64_null_as_zero")
+                   | TDate DInteger => Some (lit "crate::serde::option_chrono_naive_date_as_int")
+                   | TCurrency => Some (if f_optional f then lit "rust_decimal::serde::str_option" else lit "rust_decimal::serde::str")
+                   | _ => None
+                   end;
+        fd_option := f_optional f || forced_option (f_ty f);
+        fd_ty := r |}.
+
+Definition print_field_attrs (d : fdesc) : src :=
+  (match fd_wire d with
+   | WIdent => []
+   | WFlatten => t "#[serde(flatten)]"
+   | WRename n => t "#[serde(rename =" ++ sl n ++ t ")]"
+   end) ++
+  (match fd_default_skip d with
+   | None => []
+   | Some SkipNone => serde_skip "Option::is_none"
+   | Some SkipEmptyVec => serde_skip "Vec::is_empty"
+   | Some SkipNullValue => serde_skip "serde_json::Value::is_null"
+   end) ++
+  (match fd_with d with None => [] | Some w => t "#[serde(with =" ++ sl w ++ t ")]" end).
+
+Definition class_field (name : str) (f : hfield) : result src :=
+  do d <- field_desc name f;
+  do id <- ident (fd_ident d);
+  Ok (doc_attr (f_doc f) ++ print_field_attrs d ++ t "pub" ++ id ++ t ":" ++
+      rty_code (if fd_option d then ROption (fd_ty d) else fd_ty d)).
 
 Definition ref_target (fields : list (str * hfield)) : option (str * hfield) :=
   find (fun kf => f_flatten (snd kf) && negb (f_optional (snd kf))) fields.
@@ -311,42 +336,64 @@ Definition builder_method (p : hparam) : result src :=
   Ok (doc_attr (Some (lit "Set the value of the " ++ name ++ lit " field.")) ++
       t "pub fn" ++ id ++ t "( mut self ," ++ id ++ t ":" ++ argty ++ t ") -> Self {" ++ body ++ t "}").
 
-(* Parameter::to_key + ParamKey::to_rust_code *)
-Definition param_key (p : hparam) : src :=
+(* assign_inputs_to_request, through a small description of what each input does to the request *)
+Record assign := {
+  a_loc : hloc;            (* LQuery / LHeader / LCookie / LBody *)
+  a_key : str;             (* the key literal, `name` or `name[]` *)
+  a_name : str;            (* OpenAPI name of the input (the request-struct field is its sanitised form) *)
+  a_optional : bool;       (* wrapped in `if let Some(ref unwrapped) = ..` *)
+  a_each : bool            (* wrapped in `for item in ..` *)
+}.
+
+Definition key_of (p : hparam) : str :=
   match p_loc p with
-  | LQuery => if is_iterable (p_ty p) then sl (p_name p ++ lit "[]") else sl (p_name p)
-  | _ => sl (p_name p)
+  | LQuery => if is_iterable (p_ty p) then p_name p ++ lit "[]" else p_name p
+  | _ => p_name p
   end.
 
-(* assign_inputs_to_request *)
-Definition assign_input (p : hparam) : result src :=
-  do fld <- field_ident (p_name p);
-  let iter := is_iterable (p_ty p) && negb (match p_loc p with LBody => true | _ => false end) in
-  let value := if iter then t "item"
-               else if p_optional p then t "unwrapped"
+Definition assign_of (p : hparam) : assign :=
+  {| a_loc := p_loc p; a_key := key_of p; a_name := p_name p; a_optional := p_optional p;
+     a_each := is_iterable (p_ty p) && negb (match p_loc p with LBody => true | _ => false end) |}.
+
+Definition print_assign (a : assign) : result src :=
+  do fld <- field_ident (a_name a);
+  let value := if a_each a then t "item"
+               else if a_optional a then t "unwrapped"
                else t "self.params ." ++ fld in
-  let key := param_key p in
-  do a0 <- match p_loc p with
+  let key := sl (a_key a) in
+  do a0 <- match a_loc a with
            | LPath => Err EOther
            | LBody => Ok (t "r = r.json(serde_json::json!({" ++ key ++ t ":" ++ value ++ t "}));")
            | LQuery => Ok (t "r = r.query(" ++ key ++ t ", &" ++ value ++ t ".to_string());")
            | LHeader => Ok (t "r = r.header(" ++ key ++ t ", &" ++ value ++ t ".to_string());")
            | LCookie => Ok (t "r = r.cookie(" ++ key ++ t ", &" ++ value ++ t ".to_string());")
            end;
-  let a1 := if iter
-            then t "for item in" ++ (if p_optional p then t "unwrapped" else t "self.params ." ++ fld) ++ t "{" ++ a0 ++ t "}"
+  let a1 := if a_each a
+            then t "for item in" ++ (if a_optional a then t "unwrapped" else t "self.params ." ++ fld) ++ t "{" ++ a0 ++ t "}"
             else a0 in
-  Ok (if p_optional p
+  Ok (if a_optional a
       then t "if let Some(ref unwrapped) = self.params ." ++ fld ++ t "{" ++ a1 ++ t "}"
       else a1).
+
+Definition assign_input (p : hparam) : result src := print_assign (assign_of p).
 
 Definition is_path (p : hparam) : bool := match p_loc p with LPath => true | _ => false end.
 Definition is_query (p : hparam) : bool := match p_loc p with LQuery => true | _ => false end.
 
-Definition assign_inputs (ps : list hparam) : result src :=
+(* what the request builder is told to do: the all-query shortcut, or one assignment per non-path input *)
+Inductive plan := PSetQuery | PAssigns (l : list assign).
+
+Definition request_plan (ps : list hparam) : plan :=
   let non_path := filter (fun p => negb (is_path p)) ps in
-  if forallb is_query non_path then Ok (t "r = r.set_query(self.params);")
-  else do l <- mapM assign_input non_path; Ok (concat l).
+  if forallb is_query non_path then PSetQuery else PAssigns (map assign_of non_path).
+
+Definition print_plan (pl : plan) : result src :=
+  match pl with
+  | PSetQuery => Ok (t "r = r.set_query(self.params);")
+  | PAssigns l => do c <- mapM print_assign l; Ok (concat c)
+  end.
+
+Definition assign_inputs (ps : list hparam) : result src := print_plan (request_plan ps).
 
 (* make_url: Regex \{([_\w]+)\} -> {snake(capture)}; on ASCII \w = [A-Za-z0-9_] *)
 Definition wordc (c : ascii) : bool := is_alnum c || ceqb c "_"%char.
@@ -357,22 +404,23 @@ Fixpoint take_word (s : str) : str * str :=
   | [] => ([], [])
   end.
 
-Fixpoint fix_placeholders (fuel : nat) (s : str) : str :=
+Fixpoint fix_placeholders (fuel : nat) (s : str) : result str :=
   match fuel with
-  | O => s
+  | O => Ok s
   | S f =>
     match s with
-    | [] => []
+    | [] => Ok []
     | c :: r =>
         if ceqb c "{"%char then
           let '(w, rest) := take_word r in
           match w, rest with
           | _ :: _, c2 :: rest' =>
-              if ceqb c2 "}"%char then "{"%char :: snake w ++ "}"%char :: fix_placeholders f rest'
-              else c :: fix_placeholders f r
-          | _, _ => c :: fix_placeholders f r
+              if ceqb c2 "}"%char
+              then do id <- sanitize w; do tl <- fix_placeholders f rest'; Ok ("{"%char :: id ++ "}"%char :: tl)
+              else do tl <- fix_placeholders f r; Ok (c :: tl)
+          | _, _ => do tl <- fix_placeholders f r; Ok (c :: tl)
           end
-        else c :: fix_placeholders f r
+        else do tl <- fix_placeholders f r; Ok (c :: tl)
     end
   end.
 
@@ -382,7 +430,8 @@ Definition make_url (o : hop) : result src :=
   | [] => Ok (sl (o_path o))
   | _ =>
       do args <- mapM (fun p => do id <- field_ident (p_name p); Ok (id ++ t "= self.params ." ++ id)) path_params;
-      Ok (t "& format!(" ++ sl (fix_placeholders (length (o_path o)) (o_path o)) ++ t "," ++ sep_by (t ",") args ++ t ")")
+      do tpl <- fix_placeholders (length (o_path o)) (o_path o);
+      Ok (t "& format!(" ++ sl tpl ++ t "," ++ sep_by (t ",") args ++ t ")")
   end.
 
 (* build_api_client_method *)
